@@ -38,7 +38,11 @@
 (*   and all with at most MaxOmitted keys omitted, x empty-vs-absent table *)
 (*   headers, x 4 input-mode variants (paths as NPZ and as SCSV), x 6      *)
 (*   phase-list shapes (when a list key is present), x 5 fabric letters    *)
-(*   (when the fabric key is present); every single fault (13 on the       *)
+(*   (when the fabric key is present), x the values of raw_output and of   *)
+(*   diagnostics (omitted / all simulated phases / each strict subset /    *)
+(*   none, independently, so that e.g. a two-phase assemblage with         *)
+(*   raw_output restricted and diagnostics omitted or naming the other     *)
+(*   phase is visited); every single fault (13 on the                      *)
 (*   constraints C19 names, on the full and on the minimal base; 8         *)
 (*   documentation-level ones on the full base).  Two steps per            *)
 (*   configuration ("seed" -> "done") so that the workers, not the         *)
@@ -51,7 +55,8 @@
 (*   either only for undocumented types), DefaultsParse (the documented    *)
 (*   defaults are self-consistent), HeadersCoverKeys, DemandsTotal (every  *)
 (*   omitted parameter key has a stated demand), ListKeysDecide,           *)
-(*   ValidShapesParse (every listed phase-list shape is accepted).         *)
+(*   ValidShapesParse (every listed phase-list shape is accepted),         *)
+(*   SelectionsSimulated (supplied output lists name simulated phases).    *)
 (* The parameter fields and their declared defaults come from the source   *)
 (* (C19_DECL_FILE, see Params.tla); the pinned table is used otherwise.    *)
 (***************************************************************************)
@@ -181,10 +186,27 @@ Override(m, edit) ==
     [] OTHER -> <<>>
 EditApplies(m, edit) == edit \in {"no-timestep", "no-locations"} => m \notin PathModes
 
+\* a phase token names a member / is an in-range ordinal (undocumented type) / names nothing
+PhaseClass(t) == IF t[1] = "s" THEN (IF t[2] \in PhaseSet THEN "member" ELSE "invalid")
+                 ELSE IF t[1] = "i" THEN (IF t[2] \in 0..(Len(PhaseNames) - 1) THEN "ordinal" ELSE "invalid")
+                 ELSE "invalid"
+PhaseName(t) == IF PhaseClass(t) = "invalid" THEN "?" ELSE IF t[1] = "s" THEN t[2] ELSE PhaseNames[t[2] + 1]
+\* names of the phases an assemblage simulates (tokens that name nothing are dropped)
+ValidNames(asm) == LET v == SelectSeq(asm, LAMBDA t : PhaseClass(t) # "invalid")
+                   IN [i \in DOMAIN v |-> PhaseName(v[i])]
+\* every selection (sub-sequence) of a list of names: all of them, each strict subset, none
+RECURSIVE PickFrom(_, _, _)
+PickFrom(names, ix, k) == IF k > Len(names) THEN <<>>
+                          ELSE (IF k \in ix THEN <<names[k]>> ELSE <<>>) \o PickFrom(names, ix, k + 1)
+Selections(names) == {PickFrom(names, ix, 1) : ix \in SUBSET DOMAIN names}
+FirstOf(names) == IF names = <<>> THEN <<>> ELSE <<names[1]>>
+RawKey == K("output", "raw_output")
+DiagKey == K("output", "diagnostics")
+
 \* ---------------------------------------------------------------- configurations
 VARIABLES cfg, phase      \* phase: "seed" (initial, cheap) -> "done" (judged and emitted by a worker)
-\* cfg = [mode, present (set of keys), hdr (set of tables written, possibly empty), asm, fr, fab
-\*        (values used when the corresponding key is present), fault (name or "none"), edit]
+\* cfg = [mode, present (set of keys), hdr (set of tables written, possibly empty), asm, fr, fab,
+\*        raw, diag (values used when the corresponding key is present), fault (name or "none"), edit]
 
 SmallSets(U, n) == UNION {kSubset(k, U) : k \in 0..n}
 PresentSets(m) == SmallSets(OptKeys(m), MaxPresent) \cup {OptKeys(m) \ o : o \in SmallSets(OptKeys(m), MaxOmitted)}
@@ -193,16 +215,26 @@ HdrChoices(P) == {h \in SUBSET Tables : \A t \in Tables : HasTable(P, t) => t \i
 ShapeChoices(P) == IF AsmKey \in P \/ FrKey \in P THEN DOMAIN Shapes ELSE {1}
 FabChoices(P) == IF FabKey \in P THEN {S(x) : x \in FabricLetters} ELSE {DefaultFab}
 
+\* values of the two output phase lists: omitted (key absent) / all simulated phases / each strict
+\* subset of them / none - independently for raw_output and diagnostics (crossed with the A-type
+\* fabric only; the other letters get raw_output = all, diagnostics = the first phase)
+SimulatedOf(P, asm) == ValidNames(IF AsmKey \in P THEN asm ELSE DefaultAsm)
+RawChoices(P, names, fb) == IF RawKey \in P /\ fb = DefaultFab THEN Selections(names) ELSE {names}
+DiagChoices(P, names, fb) == IF DiagKey \in P /\ fb = DefaultFab THEN Selections(names) ELSE {FirstOf(names)}
+
 ValidInit == \E m \in Modes : \E P \in PresentSets(m) : \E h \in HdrChoices(P) :
                \E s \in ShapeChoices(P) : \E fb \in FabChoices(P) :
-                 cfg = [mode |-> m, present |-> P, hdr |-> h, asm |-> Shapes[s].asm, fr |-> Shapes[s].fr,
-                        fab |-> fb, fault |-> "none", edit |-> NoEdit]
+                 \E ro \in RawChoices(P, SimulatedOf(P, Shapes[s].asm), fb) :
+                   \E dg \in DiagChoices(P, SimulatedOf(P, Shapes[s].asm), fb) :
+                     cfg = [mode |-> m, present |-> P, hdr |-> h, asm |-> Shapes[s].asm, fr |-> Shapes[s].fr,
+                            fab |-> fb, raw |-> ro, diag |-> dg, fault |-> "none", edit |-> NoEdit]
 FaultInit == \E m \in Modes : \E i \in DOMAIN Faults : \E base \in {"full", "minimal"} :
                /\ EditApplies(m, Faults[i].edit)
                /\ (base = "minimal" => Faults[i].edit = NoEdit)   \* documentation-level faults: full base only
                /\ LET P == IF base = "full" THEN OptKeys(m) ELSE Faults[i].sets
                   IN cfg = [mode |-> m, present |-> P, hdr |-> {t \in Tables : HasTable(P, t)},
                             asm |-> Faults[i].asm, fr |-> Faults[i].fr, fab |-> Faults[i].fab,
+                            raw |-> SimulatedOf(P, Faults[i].asm), diag |-> FirstOf(SimulatedOf(P, Faults[i].asm)),
                             fault |-> Faults[i].name, edit |-> Faults[i].edit]
 CInit == phase = "seed" /\ (ValidInit \/ FaultInit)
 CNext == phase = "seed" /\ phase' = "done" /\ UNCHANGED cfg
@@ -214,11 +246,6 @@ EffAsm == IF Has(AsmKey) THEN cfg.asm ELSE DefaultAsm
 EffFr == IF Has(FrKey) THEN cfg.fr ELSE DefaultFr
 EffFab == IF Has(FabKey) THEN cfg.fab ELSE DefaultFab
 
-\* a phase token names a member / is an in-range ordinal (undocumented type) / names nothing
-PhaseClass(t) == IF t[1] = "s" THEN (IF t[2] \in PhaseSet THEN "member" ELSE "invalid")
-                 ELSE IF t[1] = "i" THEN (IF t[2] \in 0..(Len(PhaseNames) - 1) THEN "ordinal" ELSE "invalid")
-                 ELSE "invalid"
-PhaseName(t) == IF PhaseClass(t) = "invalid" THEN "?" ELSE IF t[1] = "s" THEN t[2] ELSE PhaseNames[t[2] + 1]
 FabClass(t) == IF t[1] = "s" THEN (IF t[2] \in FabricLetters THEN "member" ELSE "invalid")
                ELSE IF t[1] = "i" THEN "ordinal" ELSE "invalid"
 
@@ -237,8 +264,8 @@ Post == <<"len-equal", "sum-one", "phases-enum", "fabric-enum">>
 
 SimulatedNames == [i \in DOMAIN EffAsm |-> PhaseName(EffAsm[i])]
 \* values written for the two output phase lists when their keys are present
-RawSupplied == <<"strs", SimulatedNames>>
-DiagSupplied == <<"strs", <<SimulatedNames[1]>>>>
+RawSupplied == <<"strs", cfg.raw>>
+DiagSupplied == <<"strs", cfg.diag>>
 
 NoDemand == <<"-", "-", "-">>
 Demand(k) ==
@@ -289,6 +316,9 @@ HeadersCoverKeys == Done => (\A k \in cfg.present : k[1] \in Tables => k[1] \in 
 DemandsTotal == Done => (/\ Len(Demands) = Len(Keys)
                          /\ \A i \in DOMAIN Keys : (Keys[i][1] = "parameters" /\ ~Has(Keys[i])) => Demands[i][1] = "S")
 ListKeysDecide == (Done /\ cfg.fault = "none" /\ ~Has(AsmKey) /\ ~Has(FrKey)) => Broken = {}
+SelectionsSimulated == (Done /\ cfg.fault = "none") =>
+                         /\ \A i \in DOMAIN cfg.raw : \E j \in DOMAIN SimulatedNames : cfg.raw[i] = SimulatedNames[j]
+                         /\ \A i \in DOMAIN cfg.diag : \E j \in DOMAIN SimulatedNames : cfg.diag[i] = SimulatedNames[j]
 ValidShapesParse == (Done /\ cfg.fault = "none" /\ Has(AsmKey) /\ Has(FrKey)) => "ok" \in Outcome
 
 Emit == Done => PrintT(<<"CASE", ToJson(Case)>>)
